@@ -20,8 +20,10 @@ import (
 	"math/rand"
 	"net/http"
 	"net/http/httptest"
+	"runtime"
 	"strconv"
 	"sync"
+	"sync/atomic"
 	"time"
 
 	"github.com/vulcand/oxy/v2/connlimit"
@@ -32,6 +34,8 @@ import (
 func main() { hlib.Main("connlimit", &connlimitComp{}) }
 
 type connlimitComp struct{}
+
+const burstRounds = 12
 
 type clReq struct {
 	tok, amount int64
@@ -129,7 +133,10 @@ func (r *clRunner) arrive(tok, amount int64) (status int64, seen int64, rq *clRe
 // burst starts k requests of one source together (amount 1), holds every admitted one inside the handler until all k
 // are decided, then lets them finish. Returns the number admitted and the largest concurrency seen by a handler.
 func (r *clRunner) burst(tok int64, k int) (admitted int64, maxSeen int64, problem string) {
-	start := make(chan struct{})
+	// a tight barrier: every goroutine announces itself, then spins on one flag, so that they really enter together
+	var start int32
+	var ready sync.WaitGroup
+	ready.Add(k)
 	type res struct {
 		rq   *clReq
 		code int
@@ -150,12 +157,16 @@ func (r *clRunner) burst(tok int64, k int) (admitted int64, maxSeen int64, probl
 					done <- res{rq, -1}
 				}
 			}()
-			<-start
+			ready.Done()
+			for atomic.LoadInt32(&start) == 0 {
+				runtime.Gosched()
+			}
 			r.cl.ServeHTTP(rec, req)
 			done <- res{rq, rec.Code}
 		}()
 	}
-	close(start)
+	ready.Wait()
+	atomic.StoreInt32(&start, 1)
 	decided, rejected := 0, 0
 	timeout := time.After(10 * time.Second)
 	for decided < k {
@@ -351,8 +362,6 @@ func (c *connlimitComp) Run(h *hlib.History) ([]hlib.Mon, bool) {
 			if k < 0 || k > 64 {
 				return nil, false
 			}
-			admitted, maxSeen, problem := r.burst(tok, int(k))
-			h.Obs = append(h.Obs, []int64{admitted})
 			free := max - cur[tok]
 			if free < 0 {
 				free = 0
@@ -361,6 +370,17 @@ func (c *connlimitComp) Run(h *hlib.History) ([]hlib.Mon, bool) {
 			if free < want {
 				want = free
 			}
+			// a burst leaves the limiter as it found it, so it is repeated: the schedule differs from round to round, the
+			// outcome must not; the first deviating round is the one reported
+			var admitted, maxSeen int64
+			var problem string
+			for round := 0; round < burstRounds; round++ {
+				admitted, maxSeen, problem = r.burst(tok, int(k))
+				if admitted != want || problem != "" || (unit && maxSeen > max && admitted > 0) {
+					break
+				}
+			}
+			h.Obs = append(h.Obs, []int64{admitted})
 			if problem != "" {
 				mons = append(mons, hlib.Mon{Prop: "C04", Step: step, Msg: "burst: " + problem})
 			}
